@@ -547,9 +547,14 @@ def __Solver_1(simu: "_Simu", problemType: "ProblemType") -> _types.FloatArray:
     lb, ub = simu.Get_lb_ub(problemType)
 
     bi -= Aic @ xc
-    xi = _Solve_Axb(
-        simu, problemType, Aii, bi, x0, lb, ub, ResolType.r1, ownedDofs, mapping
-    )
+    if len(dofsUnknown) == 0:
+        # every dof is prescribed: nothing to solve (the iterative back-ends raise on an
+        # empty system)
+        xi = np.zeros(0)
+    else:
+        xi = _Solve_Axb(
+            simu, problemType, Aii, bi, x0, lb, ub, ResolType.r1, ownedDofs, mapping
+        )
 
     # apply result to global vector
     x = x.toarray().reshape(x.shape[0])
